@@ -24,9 +24,15 @@ static const char *POINTS[] = {
     "start.enter", "start.locked", "start.set", "start.before_notify", "start.exit", "stop.enter", "stop.flag_cleared", "stop.spin", "stop.exit",
     "dtor.enter", "dtor.flags_cleared", "dtor.before_notify", "dtor.before_join", "dtor.exit",
     // events signalled by the harness itself once the call has RETURNED and its observations are taken
-    "ctl.start_returned", "ctl.stop_returned", "ctl.destroyed"};
+    "ctl.start_returned", "ctl.stop_returned", "ctl.destroyed",
+    // loop thread again (ids are stable: new points are only ever appended): the wait predicate HAS been evaluated
+    "loop.predicate_true", "loop.predicate_false"};
 constexpr int NPOINTS = sizeof(POINTS) / sizeof(POINTS[0]);
-constexpr int NLOOP = 9;  // the first NLOOP points belong to the loop thread
+constexpr int NLOOP = 9;  // points 0..8 belong to the loop thread ...
+static const int LOOP_POINTS[] = {0, 1, 2, 3, 4, 5, 6, 7, 8, 26, 27};  // ... and so do the appended ones
+static const int CTL_POINTS[] = {9, 10, 11, 12, 13, 14, 15, 16, 17, 18, 19, 20, 21, 22, 23, 24, 25};
+constexpr int NLOOPPTS = sizeof(LOOP_POINTS) / sizeof(int), NCTLPTS = sizeof(CTL_POINTS) / sizeof(int);
+static inline bool isLoopPoint(int id) { return id < NLOOP || id >= 26; }
 
 struct Rule
 {
@@ -70,9 +76,9 @@ static void hookFn(const char *point, const void *)
   int id = pointId(point);
   if (id < 0)
     return;
-  if (id == 5 || id == 6)
-    S.loopState = 1;  // about to block / evaluating the wait predicate
-  else if (id < NLOOP)
+  if (id == 5 || id == 6 || id == 27)
+    S.loopState = 1;  // about to block / evaluating the wait predicate / predicate false: going to sleep
+  else if (isLoopPoint(id))
     S.loopState = 0;
   int n = S.arrivals[id].fetch_add(1) + 1;
   for (size_t r = 0; r < S.rules.size() && r < 8; ++r) {
@@ -263,15 +269,16 @@ static rc::Gen<Case> genCase()
   auto op = gen::pair(gen::weightedElement<int>({{4, OP_START}, {4, OP_STOP}, {2, OP_AWAIT}, {1, OP_PAUSE}}), pbt::range<int>(0, 299));
   // a rule holds one thread at one of ITS points until the OTHER thread reaches one of its points
   auto rule = gen::mapcat(gen::arbitrary<bool>(), [](bool holdLoop) {
-    auto loopPt = pbt::range<int>(0, NLOOP - 1);
-    auto ctlPt = pbt::range<int>(NLOOP, NPOINTS - 1);
+    auto loopPt = gen::map(pbt::range<int>(0, NLOOPPTS - 1), [](int i) { return LOOP_POINTS[i]; });
+    auto ctlPt = gen::map(pbt::range<int>(0, NCTLPTS - 1), [](int i) { return CTL_POINTS[i]; });
     return gen::build<Rule>(gen::set(&Rule::holdPoint, holdLoop ? loopPt : ctlPt), gen::set(&Rule::holdArrival, pbt::range<int>(1, 3)),
         gen::set(&Rule::releasePoint, holdLoop ? ctlPt : loopPt), gen::set(&Rule::releaseArrival, pbt::range<int>(1, 3)));
   });
   // "pin" pair: the controller enters a call only once the loop thread is at P for the j-th time, and the loop
   // thread stays at P until the controller has reached Y (typically: until the call has returned)
-  auto pin = gen::map(gen::tuple(pbt::range<int>(0, NLOOP - 1), pbt::range<int>(1, 3), gen::element<int>(9, 14, 14, 18, 18), pbt::range<int>(1, 2),
-                          pbt::range<int>(NLOOP, NPOINTS - 1), pbt::range<int>(1, 2)),
+  auto pin = gen::map(gen::tuple(gen::map(pbt::range<int>(0, NLOOPPTS - 1), [](int i) { return LOOP_POINTS[i]; }), pbt::range<int>(1, 3),
+                          gen::element<int>(9, 14, 14, 18, 18), pbt::range<int>(1, 2),
+                          gen::map(pbt::range<int>(0, NCTLPTS - 1), [](int i) { return CTL_POINTS[i]; }), pbt::range<int>(1, 2)),
       [](const std::tuple<int, int, int, int, int, int> &t) {
         Rule a{std::get<2>(t), std::get<3>(t), std::get<0>(t), std::get<1>(t)};
         Rule b{std::get<0>(t), std::get<1>(t), std::get<4>(t), std::get<5>(t)};
@@ -332,13 +339,15 @@ static void enumerate(pbt::SweepResult<EnumCase> &r)
   // (1) pin pairs: every loop point P x arrival j, entered calls X in {start, stop, destructor}, release events Y
   const int ENTER[] = {9, 14, 18};
   for (int prog = 0; prog < (thorough ? (int)PROGRAMS.size() : 3); prog += (thorough ? 1 : 2))
-    for (int P = 0; P < NLOOP; ++P)
+    for (int P : LOOP_POINTS)
       for (int j = 1; j <= 2; ++j)
         for (int X : ENTER)
-          for (int Y = NLOOP; Y < NPOINTS; ++Y) {
+          for (int Y : CTL_POINTS) {
             // quick tier: the release events that mean "the call is over" plus the points inside stop()
             bool key = (Y >= 13 && Y <= 17) || Y >= 22;
-            if (!thorough && !(key && X != 9))
+            // start() pinned against the loop thread on its way to sleep (lost wake-up window)
+            bool startKey = X == 9 && (P == 5 || P == 6 || P == 26 || P == 27) && (Y == 11 || Y == 12 || Y == 13 || Y == 23);
+            if (!thorough && !((key && X != 9) || startKey))
               continue;
             EnumCase e;
             e.program = prog;
@@ -351,8 +360,9 @@ static void enumerate(pbt::SweepResult<EnumCase> &r)
   int idx = 0;
   for (int prog = 0; prog < (int)PROGRAMS.size(); ++prog)
     for (int dir = 0; dir < 2; ++dir)
-      for (int hp = (dir ? NLOOP : 0); hp < (dir ? NPOINTS : NLOOP); ++hp)
-        for (int rp = (dir ? 0 : NLOOP); rp < (dir ? NLOOP : NPOINTS); ++rp)
+      for (int hp = 0; hp < NPOINTS; ++hp)
+        for (int rp = 0; rp < NPOINTS; ++rp)
+          if (isLoopPoint(hp) == (dir == 0) && isLoopPoint(rp) == (dir == 1))
           for (int ha = 1; ha <= 2; ++ha)
             for (int ra = 1; ra <= (thorough ? 2 : 1); ++ra) {
               ++idx;
@@ -366,9 +376,81 @@ static void enumerate(pbt::SweepResult<EnumCase> &r)
             }
 }
 
+// ---------------------------------------------------------------- plain stress, no hooks
+// Interleavings the scheduling points cannot produce (hardware store->load reordering between the two flags of the
+// stop()/loop handshake, pre-emption between two points) are only sampled: tight start/stop rounds on real threads.
+struct StressCase
+{
+  int rounds = 1000, bodyNs = 0, gapNs = 0, launch = 0;
+  auto tie() { return std::tie(rounds, bodyNs, gapNs, launch); }
+};
+static void stress_case(const StressCase &c, pbt::Ctx &ctx)
+{
+  verif::hook().store(nullptr);
+  auto mon = std::make_shared<Monitor>();
+  const int bodyNs = c.bodyNs;
+  auto spinNs = [](int ns) {
+    auto t0 = std::chrono::steady_clock::now();
+    while (std::chrono::steady_clock::now() - t0 < std::chrono::nanoseconds(ns)) {
+    }
+  };
+  auto body = [mon, bodyNs, spinNs]() {
+    mon->inBody.store(1);
+    mon->entries.fetch_add(1);
+    if (bodyNs)
+      spinNs(bodyNs);
+    mon->inBody.store(0);
+  };
+  const bool threadMode = (c.launch % 2) == 0;
+  long violations = 0, firstRound = -1;
+  std::string what;
+  {
+    AsyncLoop loop(body, threadMode ? AsyncLoop::THREAD : AsyncLoop::TASK);
+    const int rounds = std::max(1, c.rounds);
+    for (int r = 0; r < rounds && !violations; ++r) {
+      long before = mon->entries.load();
+      loop.start();
+      if (!waitFor([&] { return mon->entries.load() > before; }, 10.0)) {
+        what = "after start() returned the loop body was not executed within 10 s (lost wake-up)";
+        violations++;
+        firstRound = r;
+        break;
+      }
+      spinNs((int)((long)r * 37 % std::max(1, c.gapNs)));
+      loop.stop();
+      // after stop() returned: the body is not executing and does not begin (poll for a short while)
+      long e0 = mon->entries.load();
+      int in0 = mon->inBody.load();
+      bool bad = in0 != 0;
+      for (int k = 0; k < 200 && !bad; ++k)
+        bad = mon->inBody.load() != 0 || mon->entries.load() != e0;
+      if (bad) {
+        what = "the loop body was executing / began executing after stop() had returned";
+        violations++;
+        firstRound = r;
+      }
+    }
+  }
+  PBT_ASSERT_MSG(violations == 0, what << " (stress round " << firstRound << " of " << c.rounds << ", no scheduling hooks)");
+  ctx.nt(c.rounds >= 1000);
+  ctx.label(threadMode ? "stress-THREAD" : "stress-TASK");
+}
+
 static void register_properties()
 {
+  {
+    using namespace rc;
+    auto sc = gen::build<StressCase>(gen::set(&StressCase::rounds, pbt::range<int>(2000, 30000)), gen::set(&StressCase::bodyNs, gen::element<int>(0, 0, 50, 500, 5000)),
+        gen::set(&StressCase::gapNs, gen::element<int>(1, 100, 1000, 20000)), gen::set(&StressCase::launch, gen::weightedElement<int>({{4, 0}, {1, 1}})));
+    pbt::property<StressCase>("stress_no_hooks", 12, sc, stress_case);
+  }
+  const char *only = getenv("C03_STRESS_ONLY");
+  if (only && *only == '1')
+    return;
   pbt::property<Case>("schedules", 700, genCase(), run_case);
   pbt::sweep<EnumCase>("single_rule_enumeration", enumerate, enum_case);
 }
-PBT_MAIN("C03_asyncloop")
+#ifndef C03_BIN
+#define C03_BIN "C03_asyncloop"
+#endif
+PBT_MAIN(C03_BIN)
